@@ -1203,7 +1203,7 @@ class ItemSpaceParent(ItemFactoryImpl, BaseNamespaceReferrer, HasFormula):
         self.param_spaces = {}
         self.altfunc = self.formula = None
         if formula is not None:
-            self.set_formula(formula)
+            ItemSpaceParent.set_formula(self, formula)
 
     # ----------------------------------------------------------------------
     # BaseNamespaceReferrer Implementation
@@ -1606,6 +1606,14 @@ class DynamicBase(BaseSpaceImpl):
         for dynsub in self._dynamic_subs:
             baseref = self.own_refs[name]
             dynsub._dynbase_refs.set_item(name, baseref)
+
+    def set_formula(self, formula):
+        ItemSpaceParent.set_formula(self, formula)
+        self.clear_subs_rootitems()     # ItemSpaces hold copies of the formula
+
+    def del_formula(self):
+        ItemSpaceParent.del_formula(self)
+        self.clear_subs_rootitems()
 
     def clear_subs_rootitems(self):
         for dynsub in self._dynamic_subs.copy():
